@@ -5,7 +5,10 @@
     number of actors and locks (`lrun`, every schedule, `thread::panicking()` and `is_canceled` adversarial inputs of
     each step), and `run_coroutine` on a worker with all endings of a coroutine.
   * `Model/Scope.lean`: the Join handshake with the result / panic slots, for any number of coroutines and scopes.
-  The replay machines of the families `panic` (both models side by side) and `scope` execute these step functions.
+  The replay machines of the families `panic` (both models side by side), `panichand` (the lock system under contention,
+  with the two halves of a guard drop by an unwind tied to the flag store and the release of the lock word) and `scope`
+  execute these step functions. The two labelled witnesses (`swapped_guard_drop_hands_over_clean`,
+  `detached_panic_payload_leaks`) are about model variants that are NOT the code (`linitWith true`, `lazy := true`).
   Assumption of every theorem here (finding F10, pending_fixes/README-C14.md): `thread::panicking()` tells a coroutine
   whether *it* is unwinding. std keeps that flag per thread, so it is true of the code only as long as no coroutine is
   suspended while it unwinds. Since F10.patch the scope exits (`coroutine::scope`, `cqueue::scope`) catch the owner's
@@ -49,6 +52,28 @@ theorem unwind_releases_all (sched : List (Nat × Bool × LEnv)) (t : Nat) (h : 
   have := (lock_held_iff_guard sched m t).mp hm
   simp [h] at this
 
+/-- **The poison flag is visible to the next holder.** The drop of a guard by an unwind is two steps of the model
+    (`poison.done(&guard)`, then `unlock()`), any other actor may run in between, callers may be waiting for the lock
+    (`lock()`, `write()`, `read()`, the `try_` forms). For every schedule: once a guard that was dropped by a panic that
+    began inside it (coroutine not cancelled) has released its lock (`rel`), the lock's flag is set - so no acquisition,
+    exclusive or shared, that is granted after that release has read `failed = false` when it built its guard
+    (`cleanAfter`); it reports `Poisoned`. `poison_iff_panicked_in_guard_sys` is the other direction. -/
+theorem poison_visible_to_next_holder (sched : List (Nat × Bool × LEnv)) (m : Nat) :
+    ((lrun linit sched).sh.rel m = true → (lrun linit sched).sh.poi m = true) ∧
+    (lrun linit sched).sh.cleanAfter m = false :=
+  ⟨(linv_run _ sched linv_init).f m, (linv_run _ sched linv_init).g m⟩
+
+/-- ... and the order of the two halves is what it rests on: with `unlock()` before `poison.done` (`linitWith true`,
+    seeded change C13_a) a waiter can be granted the lock between the halves and gets `Ok(guard)` on data the panicking
+    holder left half-updated: coroutine 2 takes lock 3 and panics inside the guard, its drop releases, actor 4 - which
+    was waiting - is granted the lock and reads `failed = false`; the store of the flag comes too late. -/
+theorem swapped_guard_drop_hands_over_clean :
+    (lrun (linitWith true) handoverSched).sh.cleanAfter 3 = true ∧ (lrun (linitWith true) handoverSched).sh.held 3 = some 4 ∧
+    (lrun (linitWith true) handoverSched).sh.poi 3 = true ∧
+    -- the same schedule in the code's order: 4 is still waiting, nothing clean was handed out
+    (lrun linit handoverSched).sh.cleanAfter 3 = false ∧ (lrun linit handoverSched).pcs 4 = .l1 3 ∧
+    (lrun linit handoverSched).sh.poi 3 = true := by decide
+
 /-- **The worker survives**: after `run_coroutine` has gone through the branch of a panicked (or cancelled) coroutine the
     worker is in exactly the state a normal end of the coroutine leaves it in - back in its loop, the coroutine-local data
     freed once, the stack back in the pool (if there is room), the joiner woken once - and the payload sits in the Join's
@@ -64,15 +89,54 @@ theorem worker_survives (pool cap ran woken : Nat) (waiter : Bool) (p v : Nat) :
     (wrun 8 (wstart pool cap ran woken waiter .cancel)).pslot = none := by
   simp [wrun, wstep, wstart, view]
 
+/-- **A panic payload does not outlive its coroutine.** The generator of a pooled stack keeps the payload of a panic
+    (`context.err`) until `get_panic_data()` takes it, and a coroutine that ends by `Error::Cancel` does not write it.
+    `run_coroutine` takes it on every path through the panic branch, whether or not a JoinHandle is left; so for every
+    history of a stack - any endings, any of the coroutines detached - the generator is empty when the stack goes back
+    to the pool, and the panic slot of the Join of the coroutine that ran last holds its own payload if it panicked and
+    nothing otherwise (its `join()` then reports `Error::Cancel` for a cancelled coroutine, the value for a normal end). -/
+theorem panic_slot_is_own_payload_on_reused_stack (pool cap ran woken : Nat) (waiter : Bool) (e0 : Ending)
+    (hist : List (Ending × Bool)) (e : Ending) (handle : Bool) :
+    (wseq (wrun 8 (wstart pool cap ran woken waiter e0)) (hist ++ [(e, handle)])).pslot = ownPayload e ∧
+    (wseq (wrun 8 (wstart pool cap ran woken waiter e0)) (hist ++ [(e, handle)])).generr = none ∧
+    (wseq (wrun 8 (wstart pool cap ran woken waiter e0)) (hist ++ [(e, handle)])).pc = .idle := by
+  have h0 : (wrun 8 (wstart pool cap ran woken waiter e0)).generr = none ∧ (wrun 8 (wstart pool cap ran woken waiter e0)).lazy = false := by
+    cases e0 <;> simp [wrun, wstep, wstart]
+  have h1 := wseq_clean _ hist h0.2 h0.1
+  have h2 := wnext_run (wseq (wrun 8 (wstart pool cap ran woken waiter e0)) hist) e handle h1.2 h1.1
+  rw [wseq_append]
+  exact ⟨h2.2.2.1, h2.1, h2.2.2.2⟩
+
+/-- ... and taking it on every path is what that rests on: when `get_panic_data()` is skipped for a coroutine without
+    a JoinHandle (`lazy`, seeded change C13_b), a detached coroutine panics with payload 7, its stack is reused by a
+    coroutine that is cancelled - and the JoinHandle of that one is handed the foreign payload 7. -/
+theorem detached_panic_payload_leaks :
+    (wseq (wlazy (wrun 8 (wstart 0 4 0 0 false (.normal 1)))) [(.panic 7, false), (.cancel, true)]).pslot = some 7 ∧
+    -- the same history in the code: nothing in the slot of the cancelled coroutine
+    (wseq (wrun 8 (wstart 0 4 0 0 false (.normal 1))) [(.panic 7, false), (.cancel, true)]).pslot = none := by decide
+
 -- non-vacuity
 -- a coroutine takes lock 3, panics inside the guard (not cancelled): poisoned and released
-example : (lrun linit [(2, false, .lock 3), (2, false, .go), (2, true, .unwind false)]).sh.poi 3 = true := by decide
-example : (lrun linit [(2, false, .lock 3), (2, false, .go), (2, true, .unwind false)]).sh.held 3 = none := by decide
+example : (lrun linit [(2, false, .lock 3), (2, false, .go), (2, true, .unwind false), (2, true, .go)]).sh.poi 3 = true := by decide
+example : (lrun linit [(2, false, .lock 3), (2, false, .go), (2, true, .unwind false), (2, true, .go)]).sh.held 3 = none := by decide
+-- between the two halves of that drop the flag is set and the lock still held
+example : (lrun linit [(2, false, .lock 3), (2, false, .go), (2, true, .unwind false)]).sh.poi 3 = true ∧
+    (lrun linit [(2, false, .lock 3), (2, false, .go), (2, true, .unwind false)]).sh.held 3 = some 2 := by decide
+-- a waiter (4, `lock`) and a reader (5, `read`) queue behind the panicking holder; both are granted after the release
+example : let s := lrun linit [(2, false, .lock 3), (2, false, .go), (4, false, .lock 3), (5, false, .rlock 3), (4, false, .go),
+      (2, true, .unwind false), (4, false, .go), (5, false, .go), (2, true, .go), (4, false, .go), (4, false, .unlock 3), (5, false, .go)]
+    s.sh.rel 3 = true ∧ s.sh.poi 3 = true ∧ s.sh.rd 3 = 1 ∧ s.sh.held 3 = none ∧ s.sh.cleanAfter 3 = false := by decide
+-- the same schedule with the halves swapped: 4 is granted the lock before the flag is set
+example : (lrun (linitWith true) [(2, false, .lock 3), (2, false, .go), (4, false, .lock 3), (5, false, .rlock 3), (4, false, .go),
+      (2, true, .unwind false), (4, false, .go)]).sh.cleanAfter 3 = true := by decide
 -- the same with a cancellation unwind: released, not poisoned
 example : (lrun linit [(2, false, .lock 3), (2, false, .go), (2, true, .unwind true)]).sh.poi 3 = false := by decide
-example : (lrun linit [(2, false, .lock 3), (2, false, .go), (2, true, .unwind true)]).sh.held 3 = none := by decide
+example : (lrun linit [(2, false, .lock 3), (2, false, .go), (2, true, .unwind true), (2, true, .go)]).sh.held 3 = none := by decide
 -- a guard taken while already panicking does not poison
-example : (lrun linit [(2, true, .lock 3), (2, true, .go), (2, true, .unwind false)]).sh.poi 3 = false := by decide
+example : (lrun linit [(2, true, .lock 3), (2, true, .go), (2, true, .unwind false), (2, true, .go)]).sh.poi 3 = false := by decide
+-- a stack's history in the code: detached panic 7, then a cancelled coroutine with a handle: nothing in its slot
+example : (wseq (wrun 8 (wstart 0 4 0 0 false (.normal 1))) [(.panic 7, false), (.cancel, true)]).pslot = none := by decide
+example : (wseq (wrun 8 (wstart 0 4 0 0 false (.normal 1))) [(.panic 7, false), (.panic 8, true)]).pslot = some 8 := by decide
 -- the worker after a panic: idle, one more stack in the pool, payload 9 in the slot
 example : (wrun 8 (wstart 3 10 0 0 true (.panic 9))).pool = 4 ∧ (wrun 8 (wstart 3 10 0 0 true (.panic 9))).woken = 1 := by decide
 
